@@ -40,7 +40,8 @@ ParseBody(toks) ==
     ELSE IF toks[1] \notin {"size", "sloppy"} THEN [ok |-> FALSE, why |-> "nosize", sure |-> TRUE]
     ELSE LET p == ProofPart(toks, 2) IN
          IF ~p.ok THEN [ok |-> FALSE, why |-> p.why, sure |-> TRUE]
-         ELSE [ok |-> TRUE, nproof |-> p.cpfrom - 3, cpfrom |-> p.cpfrom, sure |-> toks[1] = "size"]
+         \* (c2sp.org/tlog-witness allows at most 63 proof lines: an implementation may, but need not, refuse longer proofs)
+         ELSE [ok |-> TRUE, nproof |-> p.cpfrom - 3, cpfrom |-> p.cpfrom, sure |-> toks[1] = "size" /\ p.cpfrom - 3 <= 63]
 
 \* generator for C11: every token sequence up to length n with the parser's verdict
 AllBodies(n) == UNION {[1..k -> Tokens] : k \in 0..n}
